@@ -206,7 +206,7 @@ impl HCtx {
         let multi = mode == "multi" && self.l1.backend == Backend::Sqlite;
         if multi {
             for _ in 0..n {
-                let st = SqliteStorage::new(self.l1.dir.as_ref().unwrap().path()).expect("open sqlite");
+                let st = SqliteStorage::new(&self.l1.data_dir()).expect("open sqlite");
                 webs.push(WebServer::new(cfg(), allow.clone(), GateStorage { inner: Box::new(st), gate: gate.clone() }));
             }
         } else {
